@@ -27,7 +27,7 @@ def rewrite_soll(spec, to: str):
 
 def run(ctx: Ctx) -> None:
     ctx.rule = ("random deep AHBs with SOLL marks at random groups, segments and free-text elements (also inside multi-part expressions), content results, "
-                "both flag values; each compared with the SOLL-rewritten AHB under both flag values; distinct = (AHB, content result, flag)")
+                "both flag values; each compared with the SOLL-rewritten AHB under both flag values; 220 sampled / all 14 580 three-level chains (indicator x parent status x own outcome incl. UNKNOWN); distinct = (AHB, content result, flag)")
     ctx.coverage["generated_changed"] = extract.regenerate(["Validation"])
     ok = ctx.lean_build(MODULES)
     drv = ctx.lean_build_driver()
@@ -59,6 +59,32 @@ def run(ctx: Ctx) -> None:
                                   {"ahb": spec, "content_evaluation": cer, "soll_is_required": soll, "rewritten_validated_with_flag": soll2, "first_difference": diff,
                                    "outcomes": [base.get("err", "results"), other.get("err", "results")]}, key=f"rewrite:{soll}:{depth_kind}")
                     break
+    # systematic small chains group > segment > free text: every combination of own indicator, parent status and outcome of the own
+    # condition (fulfilled / unfulfilled / UNKNOWN) at every level -- the flag must act like the rewrite in each of them
+    def x(*parts):
+        return {"parts": [[k, k.capitalize() if len(k) > 1 else k, c] for k, c in parts]}
+    A = [x(("MUSS", None)), x(("KANN", None)), x(("KANN", "[1]")), x(("SOLL", "[1]")), x(("MUSS", "[1]")), x(("SOLL", None))]
+    B = [x(("SOLL", "[2]")), x(("MUSS", "[2]")), x(("KANN", "[2]")), x(("SOLL", None)), x(("MUSS", "[3]"), ("SOLL", "[2]")), x(("SOLL", "[2]"), ("KANN", None))]
+    C = [x(("SOLL", "[2]")), x(("SOLL", "[3]")), x(("MUSS", "[2]")), x(("X", None)), x(("SOLL", "[3][901]"))]
+    combos = [(a, b, c, r1, r2, r3) for a in A for b in B for c in C for r1 in "FUK" for r2 in "FUK" for r3 in "FUK"]
+    if ctx.quick:
+        combos = ctx.rng.sample(combos, 220)
+    g0 = V.Gen(ctx.rng)
+    for a, b, c, r1, r2, r3 in combos:
+        spec = {"lines": [{"t": "g", "disc": "sg1", "expr": a, "groups": [], "segs": [{"disc": "seg1", "expr": b, "des": [
+            {"t": "free", "disc": "ft1", "expr": c, "input": ctx.rng.choice([None, "abc"]), "vtype": "TEXT"}]}]}]}
+        cer = g0.cer(p_unknown=0.0)
+        cer["rc"].update({"1": r1, "2": r2, "3": r3})
+        for soll in (True, False):
+            base = V.run_validation(spec, cer, soll)
+            ctx.case(("chain", str(spec), r1 + r2 + r3, soll), nontrivial=True)
+            ctx.count("chain_outcome", base.get("err", "results"))
+            other = V.run_validation(rewrite_soll(spec, "MUSS" if soll else "KANN"), cer, not soll)
+            if other != base:
+                ctx.violation(f"soll_is_required={soll} differs from rewriting SOLL to {'MUSS' if soll else 'KANN'}",
+                              {"ahb": spec, "content_evaluation": {"1": r1, "2": r2, "3": r3}, "full_content_evaluation": cer, "soll_is_required": soll,
+                               "with_flag": base, "rewritten": other}, key=f"rewrite-chain:{soll}")
+                break
     ctx.sample({"ahb": runs[0]["spec"], "soll": runs[0]["soll"]}, limit=1)
     VC.correspondence(ctx, runs, drv)
 
